@@ -14,6 +14,7 @@ pub use dds::*;
 pub mod dds_async;
 
 /// Contains the DCPS logic which provides the behavior to the DDS API
+#[cfg_attr(feature = "verif_hooks", doc(hidden))]
 mod dcps;
 
 pub use dcps::{builtin_topics, infrastructure};
@@ -44,3 +45,18 @@ pub mod xtypes;
 
 // To enable using our own derive macros to allow the name dust_dds:: to be used
 extern crate self as dust_dds;
+
+/// Verification hooks: re-exports of crate internals for the external runtime-monitoring harness.
+#[cfg(feature = "verif_hooks")]
+#[doc(hidden)]
+pub mod verif_hooks {
+    pub use crate::dcps::*;
+    /// XCDR serializer entry points
+    pub mod serializer {
+        pub use crate::xtypes::serializer::*;
+    }
+    /// XCDR deserializer entry points
+    pub mod deserializer {
+        pub use crate::xtypes::deserializer::*;
+    }
+}
